@@ -267,7 +267,9 @@ class Scratch:
                 if len(ms) != 1:
                     raise AnchorLost(f"slice block /{rx['block']}/ matched {len(ms)} times in {sl['fn_anchor']}")
                 bo2 = find_body_open(body, ms[0].start())
-                stmts.append(body[ms[0].start():match_brace(body, bo2)])
+                # `pre` / `post`: glue that is NOT source text (e.g. `let x = ` .. `;` around a
+                # match expression taken from a match arm); recorded in the overlay log
+                stmts.append(rx.get("pre", "") + LINE_COMMENT_RE.sub("", body[ms[0].start():match_brace(body, bo2)]) + rx.get("post", ""))
                 continue
             ms = list(re.finditer(rx, body, re.S))
             if len(ms) != 1:
@@ -279,7 +281,7 @@ class Scratch:
             raise AnchorLost("no enclosing impl for slice")
         hdr_open = find_body_open(body_src, hdr_start + 1)
         header = body_src[hdr_start + 1:hdr_open]
-        text = (f"\n// @@K-SLICE@@\n#[cfg(kani)]\n{header}{{\n    #[allow(dead_code, clippy::all)]\n    pub(crate) fn {sl['name']}({sl.get('params', '&self')}) -> {sl['ret']} {{\n        "
+        text = (f"\n// @@K-SLICE@@\n#[cfg(kani)]\n{header}{{\n    #[allow(dead_code, clippy::all)]\n    pub(crate) fn {sl['name']}({sl.get('params', '&self')}) -> {sl['ret']} {sl.get('where', '')} {{\n        "
                 + "\n        ".join(stmts) + f"\n        {sl['result']}\n    }}\n}}\n")
         with open(path, "a") as f:
             f.write(text)
@@ -291,9 +293,15 @@ class Scratch:
     def drop_slices(self, rel):
         path = os.path.join(self.repo, rel)
         src = open(path).read()
-        i = src.find("\n// @@K-SLICE@@")
-        if i >= 0:
-            open(path, "w").write(src[:i] + "\n")
+        # remove every appended slice impl block (marker .. its closing brace); harness `mod`
+        # lines appended after the slices stay
+        while True:
+            i = src.find("\n// @@K-SLICE@@")
+            if i < 0:
+                break
+            bo = find_body_open(src, src.index("impl", i))
+            src = src[:i] + src[match_brace(src, bo):]
+        open(path, "w").write(src)
 
     def apply_edit(self, rel, old, new, count=1):
         """Used only for sanity mutants (thorough tier) on a scratch copy."""
